@@ -2,6 +2,7 @@ package rules
 
 import (
 	"go/token"
+	"go/types"
 	"net/url"
 	"path"
 	"regexp"
@@ -177,6 +178,8 @@ func runC06(c *Ctx) {
 
 	runC06R3(c)
 	runC06R4(c)
+	r.Rule("R6-endpoints-immutable", "no store into a field of the url.URL behind ProviderData.LoginURL/RedeemURL/ProfileURL/ValidateURL", 1)
+	runC06R6(c, "R6-endpoints-immutable")
 	runC06R5(c)
 }
 
@@ -617,4 +620,136 @@ func runC06R5(c *Ctx) {
 	}
 	c.R.OK(rule, key, c.pos(reInstr), sprintf("%d strings (all of length <= %d over %d symbols) enumerated, %d accepted by need=%q forbid=%q regex=%q, none scheme-relative after http.Redirect + browser normalisation", total, maxLen, len(alphabet), accepted, need, forbid, reSrc))
 	_ = token.ADD
+}
+
+// runC06R6: the configured provider endpoints are never edited in place. ProviderData's URL fields are
+// pointers shared by every request; the login redirect is "the configured endpoint with only the
+// query rewritten" only as long as nobody stores into a field of the url.URL those pointers lead to.
+// Every store into a *url.URL field whose pointer derives (loads, locals, phis, returns of module
+// helpers) from ProviderData.LoginURL/RedeemURL/ProfileURL/ValidateURL without a struct copy is a
+// violation in request-reachable code (VTA from ServeHTTP); provider construction runs before the
+// provider is published and may edit its own endpoints.
+func runC06R6(c *Ctx, rule string) {
+	var urlFields []*types.Var
+	for _, n := range []string{"LoginURL", "RedeemURL", "ProfileURL", "ValidateURL"} {
+		if f := c.Field(rule, "providers.ProviderData."+n); f != nil {
+			urlFields = append(urlFields, f)
+		}
+	}
+	if len(urlFields) == 0 {
+		return
+	}
+	isShared := func(v ssa.Value) bool {
+		for _, f := range urlFields {
+			if walk.IsFieldLoad(v, f) {
+				return true
+			}
+		}
+		return false
+	}
+	var derives func(v ssa.Value, depth int, seen map[ssa.Value]bool) bool
+	derives = func(v ssa.Value, depth int, seen map[ssa.Value]bool) bool {
+		if depth > 6 || seen[v] {
+			return false
+		}
+		seen[v] = true
+		v = unwrap0(v)
+		if isShared(v) {
+			return true
+		}
+		switch x := v.(type) {
+		case *ssa.Phi:
+			for _, e := range x.Edges {
+				if derives(e, depth+1, seen) {
+					return true
+				}
+			}
+		case *ssa.UnOp:
+			if al, ok := x.X.(*ssa.Alloc); ok && x.Op == token.MUL {
+				for _, st := range storesTo(al) {
+					if derives(st.Val, depth+1, seen) {
+						return true
+					}
+				}
+			}
+		case *ssa.Call:
+			if sc := x.Call.StaticCallee(); sc != nil && c.P.InModule(sc) {
+				for _, b := range sc.Blocks {
+					if ret, ok := b.Instrs[len(b.Instrs)-1].(*ssa.Return); ok && len(ret.Results) > 0 {
+						if derives(ret.Results[0], depth+1, seen) {
+							return true
+						}
+					}
+				}
+			}
+		case *ssa.Parameter:
+			// a helper's parameter: any caller passing a shared pointer
+			fn := x.Parent()
+			for i, q := range fn.Params {
+				if q != x {
+					continue
+				}
+				for _, cs := range c.callersOf(fn) {
+					if i < len(cs.Common().Args) && derives(cs.Common().Args[i], depth+1, seen) {
+						return true
+					}
+				}
+			}
+		}
+		return false
+	}
+	R := c.requestReachable(rule)
+	if R == nil {
+		return
+	}
+	n, bad, setup := 0, 0, 0
+	for _, fn := range c.P.ModFns {
+		pk := prog.Short(prog.FnPkg(fn).Path())
+		if pk != "providers" && !strings.HasPrefix(pk, "pkg/providers") && pk != "main" {
+			continue
+		}
+		if !R[fn] {
+			// provider construction (NewAzureProvider's tenant override, defaults): runs before the provider is
+			// published to request handling; editing the endpoints there is configuration, not corruption
+			for _, b := range fn.Blocks {
+				for _, in := range b.Instrs {
+					if st, ok := in.(*ssa.Store); ok {
+						if fa, ok := st.Addr.(*ssa.FieldAddr); ok {
+							if pt, ok := fa.X.Type().Underlying().(*types.Pointer); ok && pt.Elem().String() == "net/url.URL" {
+								setup++
+							}
+						}
+					}
+				}
+			}
+			continue
+		}
+		for _, b := range fn.Blocks {
+			for _, in := range b.Instrs {
+				st, ok := in.(*ssa.Store)
+				if !ok {
+					continue
+				}
+				fa, ok := st.Addr.(*ssa.FieldAddr)
+				if !ok {
+					continue
+				}
+				pt, ok := fa.X.Type().Underlying().(*types.Pointer)
+				if !ok || pt.Elem().String() != "net/url.URL" {
+					continue
+				}
+				n++
+				if _, isLocalCopy := fa.X.(*ssa.Alloc); isLocalCopy {
+					continue // a local url.URL value (copy or literal)
+				}
+				if derives(fa.X, 0, map[ssa.Value]bool{}) {
+					bad++
+					c.R.Bad(rule, "shared-url-store|"+fnKey(fn), c.pos(in), "a field ("+walk.FieldOf(fa.X.Type(), fa.Field).Name()+") of the url.URL behind a configured provider endpoint is overwritten in place: the pointer is shared by all requests, so later login redirects and back-channel calls go to the edited URL", nil, nil)
+				}
+			}
+		}
+	}
+	if bad == 0 {
+		c.R.OK(rule, "shared-url-store|none", "-", sprintf("%d stores into url.URL fields in request-reachable provider and main code, none through a pointer derived from a configured endpoint (%d more in set-up code that runs before the provider is published)", n, setup))
+	}
 }
